@@ -485,6 +485,11 @@ func runConfCase(t *testing.T, c *c19Case, dobs *directObs) {
 			}
 			src.ch <- blk
 			synctest.Wait()
+			// the plug-in polls the tracker every second: what an earlier poll returned must not colour a later one
+			// (confirmations are relative to the latest block at the time of the poll)
+			if di%2 == 0 || d.HasTx {
+				_, _ = rt.GetLatestEvents(context.Background())
+			}
 		}
 		evs, err := rt.GetLatestEvents(context.Background())
 		if err != nil {
